@@ -34,7 +34,7 @@ struct Snap {
 }
 
 thread_local! {
-    static SNAPS: RefCell<Vec<(String, bool, Snap)>> = const { RefCell::new(Vec::new()) };
+    static SNAPS: RefCell<Vec<(String, i32, Snap)>> = const { RefCell::new(Vec::new()) };
     static STATE: RefCell<Option<State>> = const { RefCell::new(None) };
     static OFD_IDS: RefCell<BTreeMap<usize, u64>> = const { RefCell::new(BTreeMap::new()) };
 }
@@ -127,9 +127,9 @@ fn snap_main(env: &mut VEnv, args: Vec<Field>) -> BuiltinFuture<'_> {
     Box::pin(async move {
         let status = env.exit_status;
         let label = args.first().map(|f| f.value.clone()).unwrap_or_default();
-        let in_main = env.system.getpid() == env.main_pid;
+        let pid = env.system.getpid().0;
         let s = take_snapshot(env);
-        SNAPS.with(|v| v.borrow_mut().push((label, in_main, s)));
+        SNAPS.with(|v| v.borrow_mut().push((label, pid, s)));
         // keep $? as it was so that taking a snapshot is not itself a mutation
         ExitStatus(status.0).into()
     })
@@ -184,15 +184,20 @@ fn snap_json(s: &Snap) -> String {
     )
 }
 
-const KINDS: [&str; 5] = ["KParen", "KCmdSubst", "KPipeFirst", "KPipeLast", "KAsync"];
+const KINDS: [&str; 6] = ["KParen", "KCmdSubst", "KPipeFirst", "KPipeLast", "KAsync", "KPipeMiddle"];
 
-fn wrap(kind: usize, body: &str) -> String {
-    match kind {
-        0 => format!("( {body} )"),
-        1 => format!(": $( {body} )"),
-        2 => format!("{{ {body} ; }} | cat"),
-        3 => format!("true | {{ {body} ; }}"),
-        _ => format!("{{ {body} ; }} & wait"),
+/// `long`: use pipelines of three or four commands instead of two.
+fn wrap(kind: usize, body: &str, long: bool) -> String {
+    match (kind, long) {
+        (0, _) => format!("( {body} )"),
+        (1, _) => format!(": $( {body} )"),
+        (2, false) => format!("{{ {body} ; }} | cat"),
+        (2, true) => format!("{{ {body} ; }} | cat | cat | cat"),
+        (3, false) => format!("true | {{ {body} ; }}"),
+        (3, true) => format!("true | cat | {{ {body} ; }}"),
+        (4, _) => format!("{{ {body} ; }} & wait"),
+        (_, false) => format!("true | {{ {body} ; }} | cat"),
+        (_, true) => format!("true | cat | {{ {body} ; }} | cat"),
     }
 }
 
@@ -267,43 +272,70 @@ struct Scenario {
     setups: Vec<usize>,
     mutators: Vec<usize>,
     nested_in_function: bool,
+    /// pipelines of three or four commands
+    long: bool,
+    /// the whole experiment (set-up included) runs inside an outer subshell, so
+    /// that the "parent" is itself a subshell with traps of its own
+    outer_subshell: bool,
+    /// /dev/tty exists
+    tty: bool,
 }
 
 fn script(sc: &Scenario) -> String {
     let mut lines = vec!["mkdir -p /tmp /work; echo data >/tmp/in4".to_string()];
+    let mut inner = vec![];
     for s in &sc.setups {
-        lines.push(SETUPS[*s].to_string());
+        inner.push(SETUPS[*s].to_string());
     }
     let muts: Vec<&str> = sc.mutators.iter().map(|m| MUTATORS[*m]).collect();
     let body = format!("snap entry; {}; snap childend", muts.join("; "));
-    let test = wrap(sc.kind, &body);
+    let test = wrap(sc.kind, &body, sc.long);
     if sc.nested_in_function {
-        lines.push(format!("tester() {{ snap before; {test}; snap after; }}"));
-        lines.push("tester".to_string());
+        inner.push(format!("tester() {{ snap before; {test}; snap after; }}"));
+        inner.push("tester".to_string());
     } else {
-        lines.push("snap before".to_string());
-        lines.push(test);
-        lines.push("snap after".to_string());
+        inner.push("snap before".to_string());
+        inner.push(test);
+        inner.push("snap after".to_string());
+    }
+    if sc.outer_subshell {
+        // aliases defined on earlier lines of the same compound command are not
+        // yet in effect when it is parsed; that does not matter here.
+        lines.push("(".to_string());
+        lines.extend(inner);
+        lines.push(")".to_string());
+    } else {
+        lines.extend(inner);
     }
     lines.join("\n")
 }
 
 fn run(sc: &Scenario, w: &mut CasesWriter) {
     let text = script(sc);
+    let tty = sc.tty;
     SNAPS.with(|v| v.borrow_mut().clear());
     OFD_IDS.with(|m| m.borrow_mut().clear());
     let (out, _state) = run_shell(
         RunOpts { argv: vec!["-c".into(), text.clone()], ..Default::default() },
-        |env, state| {
+        move |env, state| {
             STATE.with(|s| *s.borrow_mut() = Some(state.clone()));
+            if tty {
+                yash_env::test_helper::stub_tty(state);
+            }
             env.builtins.insert("snap", Builtin::new(Type::Mandatory, snap_main));
             // mkdir stand-in
             env.builtins.insert("mkdir", Builtin::new(Type::Mandatory, mkdir_main));
         },
     );
     let snaps = SNAPS.with(|v| std::mem::take(&mut *v.borrow_mut()));
-    let get = |label: &str, main: bool| {
-        snaps.iter().find(|(l, m, _)| l == label && *m == main).map(|(_, _, s)| s.clone())
+    // the parent is the process that took the "before" snapshot; the child is
+    // any other process
+    let parent = snaps.iter().find(|(l, _, _)| l == "before").map(|(_, p, _)| *p);
+    let get = |label: &str, in_parent: bool| {
+        snaps
+            .iter()
+            .find(|(l, p, _)| l == label && (Some(*p) == parent) == in_parent)
+            .map(|(_, _, s)| s.clone())
     };
     let (before, entry, childend, after) =
         (get("before", true), get("entry", false), get("childend", false), get("after", true));
@@ -397,7 +429,15 @@ fn main() {
         for kind in 0..KINDS.len() {
             for m in 0..MUTATORS.len() {
                 run(
-                    &Scenario { kind, setups: rich.clone(), mutators: vec![m], nested_in_function: false },
+                    &Scenario {
+                        kind,
+                        setups: rich.clone(),
+                        mutators: vec![m],
+                        nested_in_function: false,
+                        long: (kind + m) % 2 == 0,
+                        outer_subshell: (kind + m) % 3 == 0,
+                        tty: (kind + m) % 5 == 0,
+                    },
                     &mut w,
                 );
             }
@@ -410,6 +450,9 @@ fn main() {
                     setups: rich.clone(),
                     mutators: vec![m],
                     nested_in_function: false,
+                    long: m % 2 == 0,
+                    outer_subshell: m % 3 == 0,
+                    tty: m % 5 == 0,
                 },
                 &mut w,
             );
@@ -422,13 +465,22 @@ fn main() {
         let nm = 1 + r.below(4);
         let mutators: Vec<usize> = (0..nm).map(|_| r.below(MUTATORS.len())).collect();
         run(
-            &Scenario { kind: r.below(KINDS.len()), setups, mutators, nested_in_function: r.chance(1, 4) },
+            &Scenario {
+                kind: r.below(KINDS.len()),
+                setups,
+                mutators,
+                nested_in_function: r.chance(1, 4),
+                long: r.chance(1, 2),
+                outer_subshell: r.chance(1, 3),
+                tty: r.chance(1, 3),
+            },
             &mut w,
         );
     }
     w.finish(
         "parent state from a random subset of 22 set-up commands; 1-4 of 38 mutators run inside a \
-         subshell of one of 5 kinds (parenthesised, command substitution, first/last pipeline element, \
-         asynchronous); non-trivial = the mutators changed the child's own snapshot; distinct = by script",
+         subshell of one of 6 kinds (parenthesised, command substitution, first/middle/last element of a \
+         pipeline of 2-4 commands, asynchronous), optionally inside a function or an outer subshell that set \
+         the traps, with or without /dev/tty; non-trivial = the mutators changed the child's own snapshot; distinct = by script",
     );
 }
